@@ -564,8 +564,8 @@ impl Property for C05 {
     }
     fn budget(&self, tier: Tier) -> (u32, usize) {
         match tier {
-            Tier::Quick => (150_000, 8),
-            Tier::Thorough => (3_000_000, 16),
+            Tier::Quick => (600_000, 8),
+            Tier::Thorough => (10_000_000, 16),
         }
     }
     fn run(&self, case: &RetryCase) -> Report {
